@@ -18,6 +18,7 @@ Judge ==
         /\ (C02_Listing(src, Fn(R.staged.listing)) \/ Say("StagedListingWrong"))
         /\ (C02_Counts(src, [nfiles |-> R.staged.nfiles, size |-> R.staged.size]) \/ Say("CountOrSizeWrong"))
         /\ (C02_Reload(Fn(R.staged.listing), Fn(R.reloaded)) \/ Say("ReloadDiffers"))
+        /\ (R.raised = <<>> \/ Say("CheckoutRaised"))
         /\ \A r \in Routes : r \in DOMAIN R.fresh =>
               /\ (C02_Fresh(src, Fn(R.fresh[r])) \/ Say("RoundTripDiffers:" \o r))
               /\ (R.extra[r] = <<>> \/ Say("StrayFileAppeared:" \o r))
